@@ -68,7 +68,17 @@ pub fn serialize_root(
     xml += "<?xml version=\"1.0\" encoding=\"UTF-8\"?>\n";
     xml += "<e57Root type=\"Structure\" ";
     for ext in extensions {
-        xml += &format!("xmlns:{}=\"{}\" ", ext.namespace, ext.url);
+        // Escape all characters that are not allowed or not preserved in XML attribute values
+        let url = ext
+            .url
+            .replace('&', "&amp;")
+            .replace('<', "&lt;")
+            .replace('>', "&gt;")
+            .replace('"', "&quot;")
+            .replace('\t', "&#9;")
+            .replace('\n', "&#10;")
+            .replace('\r', "&#13;");
+        xml += &format!("xmlns:{}=\"{}\" ", ext.namespace, url);
     }
     xml += "xmlns=\"http://www.astm.org/COMMIT/E57/2010-e57-v1.0\">\n";
     xml += "<formatName type=\"String\"><![CDATA[ASTM E57 3D Imaging Data File]]></formatName>\n";
